@@ -44,9 +44,9 @@ TIE = {
     'order': 80,                       # after `py2lean` and `py2lean_model`: imports their generated modules
     'gen_dir': 'MalVerif/Py/GenSt',
     'gen_modules': MODULE_ORDER + ['Coh'],
-    'chain': ['MalVerif.Py.TieSt', 'MalVerif.PropsGen.C09_St'],
-    'needs': {'C09': ['MalVerif.Py.TieSt', 'MalVerif.PropsGen.C09_St'],
-              'C11': ['MalVerif.Py.TieSt', 'MalVerif.PropsGen.C09_St']},
+    'chain': ['MalVerif.Py.TieSt', 'MalVerif.Py.TieStPartial', 'MalVerif.PropsGen.C09_St'],
+    'needs': {'C09': ['MalVerif.Py.TieSt', 'MalVerif.Py.TieStPartial', 'MalVerif.PropsGen.C09_St'],
+              'C11': ['MalVerif.Py.TieSt', 'MalVerif.Py.TieStPartial', 'MalVerif.PropsGen.C09_St']},
     'sources': {
         'C09': 'state-keeping emission (heap after an exception) of attackgraph.py: add_node, remove_node, add_attacker, '
                'remove_attacker; attacker.py: undo_compromise; node.py: undo_compromise; analyzers/apriori.py: '
